@@ -103,6 +103,13 @@ impl TxBatchBuilder {
             current_tx_proposal.add_last_ada_to_last_output()?;
             self.asset_groups
                 .set_min_ada_for_tx(&mut current_tx_proposal)?;
+            // the inputs of a finished proposal have to cover its outputs and its fee: a proposal that still
+            // lacks lovelace (e.g. only dust UTxOs were left for it) must not be turned into a transaction
+            if current_tx_proposal.get_need_ada()? > Coin::zero() {
+                return Err(JsError::from_str(
+                    "Not enough ADA in the remaining UTxOs to cover the outputs and the fee of a transaction",
+                ));
+            }
             self.tx_proposals.push(current_tx_proposal);
         }
 
